@@ -202,7 +202,7 @@ SERIES_KINDS = ('str', 'int', 'obj', 'auto', 'date', 'ih', 'auto_step2', 'auto_r
 
 
 def scope(tier):
-    return dict(n_series=(0, 1, 2, 3) if tier == 'quick' else (0, 1, 2, 3, 4), frame_shapes=((2, 3), (3, 2)) if tier == 'quick' else ((2, 3), (3, 2), (3, 3), (1, 4)))
+    return dict(n_series=(0, 1, 2, 3) if tier == 'quick' else (0, 1, 2, 3, 4), frame_shapes=((2, 3), (3, 2), (1, 3)) if tier == 'quick' else ((2, 3), (3, 2), (1, 3), (3, 3), (1, 4)))
 
 
 def cases(tier):
